@@ -46,3 +46,8 @@ Proof. reflexivity. Qed.
 Lemma skel_handler_AllocID_ok : skel_handler_AllocID =
   [IfE "!s.isLocalRequest(forwardedHost)" [IfE "err != nil" [Ret] []; Ret] []; Call "validateRequest"; IfE "err != nil" [Ret] []; Call "Alloc"; IfE "err != nil" [Ret] []; Ret].
 Proof. reflexivity. Qed.
+
+(* the key of the stored bound is named in one place only: nothing but the allocator's own guarded transaction reads or
+   writes it (a recovery / admin / migration path to the same key would be a second way into the stored bound) *)
+Lemma alloc_id_key_sites_ok : alloc_id_key_sites = ["server/id/id.go:getAllocIDPath"].
+Proof. reflexivity. Qed.
